@@ -5,6 +5,7 @@ import (
 	"bytes"
 	"errors"
 	"io"
+	"runtime"
 	"testing"
 
 	gots "github.com/Comcast/gots/v2"
@@ -80,7 +81,8 @@ type CaseC16 struct {
 	TailLen     int     `json:"tail_len"` // non-sync filler bytes after Stream
 	Stream      ref.Hex `json:"stream"`
 	BufSize     int     `json:"buf_size"`
-	Chunks      []int   `json:"chunks"` // empty = whatever the caller asks for
+	HugePad     int64   `json:"huge_pad,omitempty"` // thorough tier only: this many generated filler bytes, then a false and the true header
+	Chunks      []int   `json:"chunks"`             // empty = whatever the caller asks for
 	EOFWithData bool    `json:"eof_with_data"`
 	Minimal     bool    `json:"minimal_scanner"` // hand Sync a PeekScanner that has only the three interface methods
 }
@@ -218,7 +220,54 @@ func c16Plausible(s []byte, i int) bool {
 	return afc != 0 && !(pid >= 4 && pid <= 15)
 }
 
+// c16Long yields n filler bytes (never a sync byte) followed by tail, without holding them in memory.
+type c16Long struct {
+	n, i int64
+	tail []byte
+}
+
+func (r *c16Long) Read(p []byte) (int, error) {
+	if r.i >= r.n+int64(len(r.tail)) {
+		return 0, io.EOF
+	}
+	k := 0
+	for k < len(p) && r.i < r.n {
+		p[k] = byte(0x80 + r.i%0x47)
+		k++
+		r.i++
+	}
+	for k < len(p) && r.i < r.n+int64(len(r.tail)) {
+		p[k] = r.tail[r.i-r.n]
+		k++
+		r.i++
+	}
+	return k, nil
+}
+
+// c16Huge: the first plausible header lies HugePad bytes into the stream (more than a 32-bit int can count).
+func c16Huge(c CaseC16, x *hx.Ctx) *hx.Failure {
+	x.NonTrivial()
+	x.Label("offset-beyond-2^31")
+	tail := append([]byte{0x47, 0x00, 0x08, 0x10, 0x47, 0x01, 0x00, 0x10}, bytes.Repeat([]byte{0xAB}, 184)...) // a reserved-PID false header, then the true one
+	r := bufio.NewReaderSize(&c16Long{n: c.HugePad, tail: tail}, c.BufSize)
+	off, err := packet.Sync(r)
+	if err != nil {
+		return hx.Failf("sync-missed", "Sync returned error %v, first plausible header is at %d", err, c.HugePad+4)
+	}
+	if off != c.HugePad+4 {
+		return hx.Failf("sync-offset", "Sync returned offset %d, first plausible header is at %d", off, c.HugePad+4)
+	}
+	rest, _ := io.ReadAll(r)
+	if !bytes.Equal(rest, tail[4:]) {
+		return hx.Failf("sync-position", "after Sync at offset %d the reader does not deliver the packet", off)
+	}
+	return nil
+}
+
 func checkC16(c CaseC16, x *hx.Ctx) *hx.Failure {
+	if c.HugePad > 0 {
+		return c16Huge(c, x)
+	}
 	s := c16Bytes(c)
 	want := -1
 	falseSyncs := 0
@@ -335,6 +384,21 @@ func TestC16Exhaustive(t *testing.T) {
 		}
 	}
 	hx.Rec("C16").Subspace("k in 0..6 false sync bytes (every mix of AFC-00 and reserved-PID kinds) x 0..3 filler bytes x {true header follows, nothing follows} x 2 buffer sizes x 3 fragmentations x {*bufio.Reader, minimal PeekScanner}")
+}
+
+// TestC16Huge: offsets that do not fit a 32-bit int (one stream of 2 GiB of generated filler; thorough tier, shard 0).
+func TestC16Huge(t *testing.T) {
+	c16Rule()
+	if !hx.Thorough() || !(hx.FirstShard() || runtime.GOARCH == "386") {
+		t.Skip("thorough tier: shard 0 and the 32-bit pass")
+	}
+	for _, pad := range []int64{1<<31 - 2, 1<<31 + 1000} {
+		c := CaseC16{HugePad: pad, BufSize: 1 << 16}
+		if f := propC16.EvalFast(c, hx.HashInts(uint64(pad), 16)); f != nil {
+			t.Fatalf("VIOLATION-CANDIDATE property=C16 key=%s: %s", f.Key, f.Msg)
+		}
+	}
+	hx.Rec("C16").Subspace("two streams whose first plausible header lies 2^31-2+4 and 2^31+1000+4 bytes in (generated filler, nothing held in memory)")
 }
 
 func FuzzC16(f *testing.F) {
